@@ -266,7 +266,7 @@ def _child_graph(children, edges):
     return sorted(ce)
 
 
-def check_model1(n, mask, perm, nest, pal):
+def check_model1(n, mask, perm, nest, pal, hist='once'):
     import openmdao.api as om
     edges = _edges(n, mask)
     preds = {i: [a for a, b in edges if b == i] for i in range(n)}
@@ -297,8 +297,9 @@ def check_model1(n, mask, perm, nest, pal):
             outputs['y'] = y
 
     tree = _tree(n, perm, nest)
-    case = {'kind': 'model1', 'n': n, 'mask': mask, 'perm': list(perm), 'nest': nest, 'pal': pal}
-    cls = '%s/nest%d' % (_gclass(n, edges), nest)
+    case = {'kind': 'model1', 'n': n, 'mask': mask, 'perm': list(perm), 'nest': nest, 'pal': pal,
+            'hist': hist}
+    cls = '%s/nest%d%s' % (_gclass(n, edges), nest, '' if hist == 'once' else '/' + hist)
     vio = []
 
     def V(what, msg):
@@ -320,9 +321,20 @@ def check_model1(n, mask, perm, nest, pal):
             for i in x:
                 g.add_subsystem('c%d' % i, Lin(i))
                 path[i] = 'g.c%d' % i
-    for i, j in edges:
+    # histories: 'once' = one setup; 'twice' = setup, run, setup again; 'grow' = only the first
+    # edge is connected for a first setup and run, the others are connected before the second setup
+    first_edges = edges[:1] if hist == 'grow' else edges
+    for i, j in first_edges:
         prob.model.connect(path[i] + '.y', path[j] + '.x%d' % i)
     try:
+        if hist != 'once':
+            prob.setup()
+            for i in range(n):
+                if not preds[i]:
+                    prob.set_val(path[i] + '.u', U[i])
+            prob.run_model()
+            for i, j in edges[len(first_edges):]:
+                prob.model.connect(path[i] + '.y', path[j] + '.x%d' % i)
         prob.setup()
         for i in range(n):
             if not preds[i]:
@@ -424,7 +436,7 @@ def check_case(case):
         return {'evals': 1, 'nontrivial': nt, 'outcome': oc, 'violations': vio}
     if kind == 'model1':
         oc, nt, vio = check_model1(case['n'], case['mask'], tuple(case['perm']), case['nest'],
-                                   case['pal'])
+                                   case['pal'], case.get('hist', 'once'))
         return {'evals': 1, 'nontrivial': nt, 'outcome': oc, 'violations': vio}
 
     outcomes = collections.Counter()
@@ -460,6 +472,10 @@ def check_case(case):
                     continue
                 seen.add(key)
                 add(*check_model1(n, mask, perm, case['nest'], case['pal']))
+                # the same model set up a second time (as is, and after more connections)
+                add(*check_model1(n, mask, perm, case['nest'], case['pal'], 'twice'))
+                if len(_edges(n, mask)) > 1:
+                    add(*check_model1(n, mask, perm, case['nest'], case['pal'], 'grow'))
         sample = {'kind': 'models', 'n': n, 'nest': case['nest'], 'graphs': len(case['masks']),
                   'first_edges': _edges(n, case['masks'][0]) if case['masks'] else None,
                   'add_orders': len(sel)}
